@@ -282,7 +282,7 @@ var CfgC09 = reg(&MachineCfg{
 		}
 	},
 	Gens: withGens("commit", 18, "export", 4, "crash", 1),
-	Bias: map[string]int{"right-signers": 88, "exec": 5, "right-proof": 75, "multi": 12, "group": 8},
+	Bias: map[string]int{"right-signers": 88, "exec": 5, "right-proof": 75, "multi": 12, "group": 8, "big-doc": 14},
 	Rule: "differential twin: every committed block (all modules, failing txs, burn deposits, end-blocker activity) is executed by a second, independently constructed instance that is perturbed by CheckTx(New/Recheck), Simulate (also of later txs) and queries between deliveries, a different GOMAXPROCS and time zone, and that re-initialises from its own genesis export; compared at every height: app hash, per-tx code/codespace/data/gas/events, Begin/EndBlock events, probe-set answers; plus (TestC09Concurrent, race detector on) a replica that serves 2-12 goroutines of queries and a CheckTx/Simulate caller while it executes the blocks must reproduce the codes and app hashes of the replica that executed them alone; non-trivial = >=5 compared blocks with >=1 failing tx and >=1 perturbation",
 	NonTrivial: func(w *world.World) bool {
 		return lab(w, "twin block compared") >= 5 && lab(w, "tx handler")+lab(w, "tx ante") > 0 &&
